@@ -38,6 +38,10 @@ def _open_options(m):
     lit = ", ".join("%s: %s" % (f, "true" if f in names else "false") for f in allf)
     return "os_open(path, OpenFlags { %s }, mode)" % lit
 
+def _loop_rw(m):
+    return "let els = array_elems(arr); let mut wi: usize = 0; while wi < els.len() %s{ let obj = &els[wi]; wi += 1; %s" % (m.group(1) or "", m.group(2) or "")
+
+
 FILE_OUT = "(*args@[0] matches Object::File(f) && (*f is Writer || *f is Stdout || *f is Stderr))"
 
 UNIT = dict(
@@ -67,8 +71,45 @@ UNIT = dict(
              ensures=[
                  # C22: a flush that the OS fails is an error OBJECT: never a panic (the shims may fail), never a runtime error
                  "args@.len() == 1 && %s ==> r is Ok" % FILE_OUT,
+                 "args@.len() == 1 && %s ==> (r matches Ok(o) && (if os_fails() { *o is Err } else { *o == Object::Null }))" % FILE_OUT,
                  "args@.len() != 1 ==> r is Err",
              ], props=["C22", "C08"]),
+        dict(kind="fn", file=F, path="builtin_read_to_string", ret="r", props=["C22", "C08"],
+             ensures=["args@.len() != 1 ==> r is Err",
+                      "args@.len() == 1 && (*args@[0] matches Object::File(f) && *f is Reader) ==> (r matches Ok(o) && (if os_fails() { *o is Err } else { *o is Str || *o is Err }))"],
+             rewrites=[dict(rule="R2", re=r"let mut file = reader\.borrow_mut\(\);", to="let file = reader;", expect=1, why="RefCell erased"),
+                       dict(rule="R3", re=r"file\.read_to_end\(&mut result_bytes\)", to="os_read_to_end(file, &mut result_bytes)", expect=1, why="Read::read_to_end -> OS shim"),
+                       dict(rule="R1", re=r"let mut result_bytes = Vec::new\(\);", to="let mut result_bytes: Vec<u8> = Vec::new();", why="type annotation"),
+                       dict(rule="R3", re=r"String::from_utf8\(result_bytes\)", to="string_from_utf8(result_bytes)", expect=1, why="String::from_utf8 shim (Ok or Err)")]),
+        dict(kind="fn", file=F, path="builtin_read_line", ret="r", props=["C22", "C08"],
+             ensures=["args@.len() != 1 ==> r is Err",
+                      "args@.len() == 1 && (*args@[0] matches Object::File(f) && (*f is Reader || *f is Stdin)) ==> (r matches Ok(o) && (if os_fails() { *o is Err } else { *o is Str }))"],
+             rewrites=[dict(rule="R2", re=r"let mut file = reader\.borrow_mut\(\);", to="let file = reader;", expect=1, why="RefCell erased"),
+                       dict(rule="R3", re=r"let mut line = String::new\(\);", to="let mut line = string_new();", expect=1, why="String::new shim"),
+                       dict(rule="R3", re=r"file\.read_line\(&mut line\)", to="os_read_line(file, &mut line)", expect=1, why="BufRead::read_line -> OS shim"),
+                       dict(rule="R3", re=r"io::stdin\(\)\.read_line\(&mut line\)", to="os_read_line_stdin(&mut line)", expect=1, why="stdin read_line -> OS shim")]),
+        dict(kind="fn", file=F, path="builtin_write", ret="r", props=["C22", "C08"],
+             ensures=["args@.len() != 2 ==> r is Err",
+                      # a file writer: the OS write may fail; the result is then an error object, else the byte count
+                      "args@.len() == 2 && (*args@[0] matches Object::File(f) && *f is Writer) && writable(*args@[1]) ==> (r matches Ok(o) && (if os_fails() { *o is Err } else { *o is Integer }))",
+                      "args@.len() == 2 && (*args@[0] matches Object::File(f) && (*f is Stdout || *f is Stderr)) && writable(*args@[1]) ==> r is Ok",
+                      "args@.len() == 2 && (*args@[0] matches Object::File(f) && (*f is Stdout || *f is Stderr)) && *args@[1] is Packet ==> (r matches Ok(o) && (if os_fails() { *o is Err } else { *o is Integer }))",
+                      "args@.len() == 2 && (*args@[0] matches Object::File(f) && (*f is Reader || *f is Stdin)) ==> r is Err"],
+             rewrites=[dict(rule="R2", re=r"let mut file = writer\.borrow_mut\(\);", to="let file = writer;", expect=1, why="RefCell erased"),
+                       dict(rule="R3", re=r"file\.write\(&?\w+\)", to="os_write(file)", expect=4, why="Write::write on the file writer -> OS shim (the bytes are C21's concern)"),
+                       dict(rule="R3f", re=r"\be?print!\((?:[^()]|\((?:[^()]|\([^()]*\))*\))*\)", to="os_print()", why="print!/eprint! -> shim (cannot fail short of a closed stream, which panics in std: listed)"),
+                       dict(rule="R2", re=r"for obj in arr\.elements\.borrow\(\)\.iter\(\) (/\*@L\d@\*/)?\{(/\*@LB\d@\*/)?", to=_loop_rw, expect=3, why="RefCell<Vec>::iter() -> index loop over the same elements in order"),
+                       dict(rule="R3", re=r"\bobj\.as_ref\(\)", to="&**obj", why="Rc::as_ref through a reference -> deref"),
+                       dict(rule="R1", re=r"let mut buf = Vec::new\(\);", to="let mut buf: Vec<u8> = Vec::new();", why="type annotation"),
+                       dict(rule="R3", re=r"let bytes = s\.as_bytes\(\);", to="let bytes = string_bytes(s);", why="String::as_bytes shim"),
+                       dict(rule="R3", re=r"\bs\.len\(\)", to="str_len(s)", why="String::len shim"),
+                       dict(rule="R10", re=r"let bytes: Vec<u8> = s\.as_ref\(\)\.into\(\);", to="let bytes: Vec<u8> = packet_to_bytes(&**s);", why="From<&PcapPacket> for Vec<u8> -> shim (C15's serialiser)"),
+                       dict(rule="R3", re=r"io::stdout\(\)\.write_all\(&bytes\)", to="os_write_all_stdout(&bytes)", why="stdout write_all -> OS shim"),
+                       dict(rule="R3", re=r"io::stderr\(\)\.write_all\(&bytes\)", to="os_write_all_stderr(&bytes)", why="stderr write_all -> OS shim"),
+                       dict(rule="R2", re=r"arr\.elements\.borrow\(\)\.len\(\)", to="array_len(arr)", why="RefCell<Vec>::len shim")],
+             loops={k: dict(invariant=["wi <= els@.len()", "els@ == arr.elems()", "forall|j: int| 0 <= j < wi ==> *#[trigger] els@[j] is Byte", "args@.len() == 2",
+                                       "*args@[1] matches Object::Arr(a2) && a2 == *arr"],
+                            body_prologue=" proof { assert(all_bytes(els@) ==> *els@[wi - 1] is Byte); } ", decreases="els@.len() - wi") for k in range(3)}),
         dict(kind="fn", file=F, path="builtin_pcap_stream", ret="r",
              ensures=[
                  "args@.len() != 1 ==> r is Err",   # wrong arity is a runtime error naming the builtin, not an index panic
